@@ -81,8 +81,12 @@ class Values:
         if p in ("e", "e0", "energy"):
             base = [-1.0, 0.0, 1e-300, 1e-6, 0.1 * (1 - 1e-9), 0.5, 1.0 * (1 - 1e-9), 1.0, 1.0 * (1 + 1e-9), 10.0, 100.0, 1000.0 * (1 - 1e-9), 1000.0, 1000.0 * (1 + 1e-6), 1e4,
                     1e300]
-            for e in self.edges.get(z, [])[:9]:
+            ed = sorted(self.edges.get(z, [])[:9])
+            for e in ed:
                 base += [e * (1 - 1e-9), e, e * (1 + 1e-9)]
+            # the windows between neighbouring edges (L3..L2, L2..L1, M5..M4, ...) are regions of their own for the jump-ratio and cascade code and
+            # far too narrow for log-uniform draws: their midpoints are argument classes too
+            base += [0.5 * (a + b) for a, b in zip(ed, ed[1:]) if b > a]
             out = r.sample(base, min(len(base), max(2, n // 2)))
             out += [10.0 ** r.uniform(-1.5, 3.2) for _ in range(n - len(out))]
             return out
